@@ -23,6 +23,7 @@
 //!        c18 text <source>            same, source given literally
 use minijinja::machinery::{ast, parse, parse_expr, WhitespaceConfig};
 use minijinja::value::{Enumerator, Kwargs, Object, ObjectRepr, Rest, Value};
+use minijinja::syntax::SyntaxConfig;
 use minijinja::{Environment, Error, State, UndefinedBehavior};
 use mjh::*;
 use std::collections::{BTreeMap, BTreeSet};
@@ -36,19 +37,28 @@ use std::sync::{Arc, Mutex};
 
 /// Sequence-like object: attribute / item / call / method call all give a child, iteration gives
 /// `len` children, truthiness = non-empty.  Depth-limited so rendering terminates.
+/// While only attributes were followed from a context key, the object knows its path
+/// (`a.b.c`) and logs every further attribute asked for: the attribute-level oracle of the
+/// nested report.
 #[derive(Debug)]
 struct U {
     depth: u8,
     len: usize,
+    path: Option<(String, PathLog)>,
 }
 
+type PathLog = Arc<Mutex<Vec<String>>>;
+
 impl U {
-    fn child(&self) -> Value {
+    fn child_with(&self, path: Option<(String, PathLog)>) -> Value {
         if self.depth == 0 {
             Value::from(7)
         } else {
-            Value::from_object(U { depth: self.depth - 1, len: self.len })
+            Value::from_object(U { depth: self.depth - 1, len: self.len, path })
         }
+    }
+    fn child(&self) -> Value {
+        self.child_with(None)
     }
 }
 
@@ -63,8 +73,13 @@ impl Object for U {
             } else {
                 None
             }
-        } else if key.as_str().is_some() {
-            Some(self.child())
+        } else if let Some(k) = key.as_str() {
+            let path = self.path.as_ref().map(|(p, log)| {
+                let np = format!("{}.{}", p, k);
+                log.lock().unwrap().push(np.clone());
+                (np, log.clone())
+            });
+            Some(self.child_with(path))
         } else {
             None
         }
@@ -93,6 +108,7 @@ impl Object for U {
 struct Rec {
     inner: BTreeMap<String, Value>,
     log: Mutex<Vec<String>>,
+    paths: PathLog,
 }
 
 impl Object for Rec {
@@ -121,43 +137,130 @@ impl Object for Rec {
 const POOL: [&str; 12] = ["x", "y", "z", "a", "b", "item", "foo", "q", "ns", "c", "m", "n"];
 const SPECIAL: [&str; 3] = ["loop", "self", "caller"];
 
-fn mk_value(kind: u64) -> Option<Value> {
+fn mk_value(kind: u64, name: &str, paths: &PathLog) -> Option<Value> {
+    let u = |depth: u8, len: usize| Value::from_object(U { depth, len, path: Some((name.to_string(), paths.clone())) });
     Some(match kind {
         0 => return None,
-        1 => Value::from_object(U { depth: 2, len: 2 }),
-        2 => Value::from_object(U { depth: 2, len: 0 }),
+        1 => u(2, 2),
+        2 => u(2, 0),
         3 => Value::from(3),
         4 => Value::from("s"),
         5 => Value::from(true),
         6 => Value::from(false),
-        7 => Value::from(vec![Value::from_object(U { depth: 1, len: 2 }), Value::from(1)]),
-        8 => Value::from_object(U { depth: 2, len: 1 }),
+        7 => Value::from(vec![Value::from_object(U { depth: 1, len: 2, path: None }), Value::from(1)]),
+        8 => u(2, 1),
+        10 => Value::from_safe_string("<b>".to_string()),
+        11 => Value::from_bytes(vec![1, 2]),
+        12 => Value::make_iterable(|| 0..2),
+        13 => Value::make_one_shot_iterator(0..2),
+        14 => Value::from(1.5),
+        15 => Value::from(i128::MAX),
+        16 => Value::from(BTreeMap::from([("a", 1), ("b", 2)])),
         _ => Value::from(()),
     })
 }
 
+/// names the helper templates read; the contexts also provide the dynamic template names
+const TEMPLATE_NAME_VARS: [(&str, &str); 3] = [("tpl", "inc.txt"), ("libname", "lib.txt"), ("basename", "base.txt")];
+
 /// context number `which` for a template (deterministic in `seed`)
 fn mk_context(which: usize, seed: u64) -> Arc<Rec> {
     let mut inner = BTreeMap::new();
+    let paths: PathLog = Arc::new(Mutex::new(Vec::new()));
     let mut rng = Rng::new(seed ^ (which as u64).wrapping_mul(0x5851F42D4C957F2D));
     for name in POOL.iter().chain(SPECIAL.iter()) {
         let v = match which {
-            0 => mk_value(1),
-            1 => mk_value(*rng.pick(&[1, 1, 1, 1, 8, 8, 2, 2, 0, 0, 0, 3, 4, 5, 6, 7, 9])),
-            _ => mk_value(if rng.chance(1, 2) { 0 } else { *rng.pick(&[2, 6, 1, 9, 8]) }),
+            0 => mk_value(1, name, &paths),
+            1 => mk_value(*rng.pick(&[1, 1, 1, 1, 8, 8, 2, 2, 0, 0, 0, 3, 4, 5, 6, 7, 9, 10, 11, 12, 13, 14, 15, 16]), name, &paths),
+            _ => mk_value(if rng.chance(1, 2) { 0 } else { *rng.pick(&[2, 6, 1, 9, 8]) }, name, &paths),
         };
         if let Some(v) = v {
             inner.insert(name.to_string(), v);
         }
     }
-    Arc::new(Rec { inner, log: Mutex::new(Vec::new()) })
+    for (var, tname) in TEMPLATE_NAME_VARS.iter() {
+        if which != 2 || rng.chance(1, 2) {
+            inner.insert(var.to_string(), Value::from(*tname));
+        }
+    }
+    Arc::new(Rec { inner, log: Mutex::new(Vec::new()), paths })
 }
 
 const N_CONTEXTS: usize = 3;
 
-fn mk_env() -> Environment<'static> {
+/// how a case is run; derived from the source text, so a case replays from its hex
+#[derive(Clone, Copy)]
+struct Cfg {
+    undefined: UndefinedBehavior,
+    /// `add_template_owned` + `get_template` instead of `template_from_str`
+    named: bool,
+    /// `<% %>`, `<< >>`, `<# #>` delimiters (`Environment::set_syntax`)
+    custom_syntax: bool,
+}
+
+impl Cfg {
+    fn of(seed: u64, is_expr: bool) -> Cfg {
+        Cfg {
+            undefined: match seed % 8 {
+                5 => UndefinedBehavior::Strict,
+                6 => UndefinedBehavior::Chainable,
+                7 => UndefinedBehavior::SemiStrict,
+                _ => UndefinedBehavior::Lenient,
+            },
+            named: (seed >> 3) % 3 == 0,
+            custom_syntax: !is_expr && (seed >> 5) % 5 == 0,
+        }
+    }
+    fn label(&self) -> String {
+        format!(
+            "{:?}/{}/{}",
+            self.undefined,
+            if self.named { "named" } else { "from_str" },
+            if self.custom_syntax { "custom-syntax" } else { "default-syntax" }
+        )
+    }
+    fn syntax(&self) -> SyntaxConfig {
+        if self.custom_syntax {
+            SyntaxConfig::builder()
+                .block_delimiters("<%", "%>")
+                .variable_delimiters("<<", ">>")
+                .comment_delimiters("<#", "#>")
+                .build()
+                .unwrap()
+        } else {
+            SyntaxConfig::default()
+        }
+    }
+    /// the source in the delimiters of this configuration
+    fn source(&self, src: &str) -> String {
+        if self.custom_syntax {
+            src.replace("{{", "<<").replace("}}", ">>").replace("{%", "<%").replace("%}", "%>")
+        } else {
+            src.to_string()
+        }
+    }
+}
+
+/// the other templates of the environment (targets of include / import / extends)
+const HELPERS: [(&str, &str); 3] = [
+    ("inc.txt", "{{ inc_var }}{% set leaked = 1 %}"),
+    (
+        "lib.txt",
+        "{% macro helper(a) %}{{ a }}{{ lib_var }}{% endmacro %}{% set exported = 1 %}{{ lib_top }}",
+    ),
+    (
+        "base.txt",
+        "{{ base_var }}{% block b0 %}{{ base_b0 }}{% endblock %}[{% block b1 %}{{ base_b1 }}{% endblock %}]{% block body %}{% endblock %}",
+    ),
+];
+
+fn mk_env(cfg: Cfg) -> Environment<'static> {
     let mut env = Environment::new();
-    env.set_undefined_behavior(UndefinedBehavior::Lenient);
+    env.set_undefined_behavior(cfg.undefined);
+    env.set_syntax(cfg.syntax());
+    for (name, src) in HELPERS.iter() {
+        env.add_template_owned(name.to_string(), cfg.source(src)).unwrap();
+    }
     // debug mode makes a failing render look up every name mentioned near the failing
     // instruction for the error report; that is not name resolution of the template.
     env.set_debug(false);
@@ -192,7 +295,7 @@ fn mk_env() -> Environment<'static> {
     env.add_test("u", |_v: Value, _rest: Rest<Value>| false);
     env.add_function("gf", |_rest: Rest<Value>, kw: Kwargs| {
         eat(&kw);
-        Value::from_object(U { depth: 2, len: 2 })
+        Value::from_object(U { depth: 2, len: 2, path: None })
     });
     env
 }
@@ -410,13 +513,30 @@ impl Dump {
                 self.tok(&clean(b.name));
                 self.stmts(&b.body);
             }
-            ast::Stmt::Import(_)
-            | ast::Stmt::FromImport(_)
-            | ast::Stmt::Extends(_)
-            | ast::Stmt::Include(_) => {
-                self.kind("multi_template");
-                self.unsupported = true;
-                self.tok("unsupported");
+            ast::Stmt::Include(i) => {
+                self.kind("Include");
+                self.tok("include");
+                self.expr(&i.name);
+            }
+            ast::Stmt::Extends(e) => {
+                self.kind("Extends");
+                self.tok("extends");
+                self.expr(&e.name);
+            }
+            ast::Stmt::Import(i) => {
+                self.kind("Import");
+                self.tok("import");
+                self.expr(&i.expr);
+                self.expr(&i.name);
+            }
+            ast::Stmt::FromImport(f) => {
+                self.kind("FromImport");
+                self.tok("fromimport");
+                self.expr(&f.expr);
+                self.tok(&f.names.len().to_string());
+                for (name, alias) in &f.names {
+                    self.expr(alias.as_ref().unwrap_or(name));
+                }
             }
         }
     }
@@ -792,6 +912,13 @@ impl Gen {
     fn body(&mut self, d: u32, in_loop: bool, in_macro: bool) -> String {
         let n = if d == 0 { 1 + self.rng.below(5) } else { self.rng.below(4) };
         let mut s = String::new();
+        if d == 0 && self.rng.chance(1, 12) {
+            // a child template: blocks b0, b1 override the parent's
+            s.push_str(match self.rng.below(3) {
+                0 => "{% extends basename %}",
+                _ => "{% extends \"base.txt\" %}",
+            });
+        }
         for _ in 0..n {
             if self.budget <= 0 {
                 break;
@@ -810,7 +937,27 @@ impl Gen {
         }
         match self.rng.below(30) {
             0..=5 => format!("{{{{ {} }}}}", self.expr(0)),
-            6 => "t".to_string(),
+            6 if self.rng.chance(1, 2) => "t".to_string(),
+            6 => {
+                // other templates: constant and dynamic names
+                match self.rng.below(9) {
+                    0 => "{% include \"inc.txt\" %}".to_string(),
+                    1 => "{% include tpl %}".to_string(),
+                    2 => format!("{{% include {} ignore missing %}}", self.expr(2)),
+                    3 => format!("{{% import \"lib.txt\" as {} %}}{{{{ {}.helper({}) }}}}", "lib", "lib", self.expr(2)),
+                    4 => {
+                        let t = self.target_name();
+                        format!("{{% import libname as {} %}}{{{{ {}.helper({}) }}}}", t, t, self.expr(2))
+                    }
+                    5 => format!("{{% from \"lib.txt\" import helper %}}{{{{ helper({}) }}}}", self.expr(2)),
+                    6 => {
+                        let t = self.target_name();
+                        format!("{{% from libname import helper as {}, exported %}}{{{{ {}({}) }}}}{{{{ exported }}}}", t, t, self.expr(2))
+                    }
+                    7 => format!("{{% import {} as {} %}}", self.expr(2), self.target_name()),
+                    _ => format!("{{% from {} import {} %}}", self.expr(2), self.target_name()),
+                }
+            }
             7..=9 => {
                 // for
                 let target = if self.rng.chance(3, 4) { self.target_name().to_string() } else { self.target() };
@@ -987,6 +1134,14 @@ const CORPUS: &[&str] = &[
     "{% for a in y|l %}{{ a }}{% break %}{{ z }}{% endfor %}{% for a in y|l %}{% set k %}{% continue %}{% endset %}{{ k }}{% endfor %}",
     "{% for a in y|l %}{% for b in z|l %}x{% else %}{% continue %}{% endfor %}{{ q }}{% endfor %}",
     "{{ foo.bar.baz }}{% set x = cfg.a %}{{ x.y }}{{ cfg }}{{ f(a).b.c }}{{ a.b[c.d].e }}",
+    "{% include tpl %}{% include \"inc.txt\" %}{{ leaked }}",
+    "{% import libname as lib %}{{ lib.helper(x) }}{% from \"lib.txt\" import helper as h, exported %}{{ h(y) }}{{ exported }}",
+    "{% extends basename %}{% set u = 1 %}{% block b0 %}{{ u }}{{ super() }}{{ z }}{% endblock %}{% macro mm() %}{{ q }}{% endmacro %}",
+    "{% extends \"base.txt\" %}{% block body %}{% for a in y|l recursive %}{{ loop(a|l) }}{{ self.b1() }}{% endfor %}{% endblock %}",
+    "{% macro m() %}{{ m() }}{% endmacro %}{% macro outer() %}{% macro inner() %}{{ inner }}{% endmacro %}{{ inner() }}{% endmacro %}{{ outer() }}",
+    "{% set a, (b, c) = y %}{{ a ~ b ~ c }}{% set ns = namespace() %}{% set ns.k, d = x %}{{ d }}",
+    "{{ a.b.c }}{{ a.b.d }}{% set q = a.b %}{{ q.e }}{{ (a|f).g }}{{ a[\"h\"].i }}{% with w = a %}{{ w.j }}{% endwith %}",
+    "{% macro m(p, q=p, r=outer) %}{{ p }}{{ q }}{{ r }}{{ varargs }}{{ kwargs }}{% endmacro %}{{ m(1) }}",
     "#expr# [foo, bar.baz]",
     "#expr# foo[a:b] ~ loop ~ self ~ self.x() ~ loop(q)",
 ];
@@ -1020,11 +1175,15 @@ const EXPR_MARK: &str = "#expr# ";
 /// The contexts are derived from the source text alone, so a case replays from its hex.
 fn run_one(full_src: &str) -> String {
     let seed = fnv(full_src);
-    let (is_expr, src) = match full_src.strip_prefix(EXPR_MARK) {
+    let (is_expr, plain_src) = match full_src.strip_prefix(EXPR_MARK) {
         Some(rest) => (true, rest),
         None => (false, full_src),
     };
+    let cfg = Cfg::of(seed, is_expr);
+    let src_owned = cfg.source(plain_src);
+    let src: &str = &src_owned;
     let mut fields: Vec<String> = Vec::new();
+    fields.push(format!("\"cfg\":{}", json_str(&cfg.label())));
     // 1. real parser -> AST dump
     let parsed = guarded(|| {
         if is_expr {
@@ -1038,7 +1197,7 @@ fn run_one(full_src: &str) -> String {
                 d
             })
         } else {
-            parse(src, "t", Default::default(), WhitespaceConfig::default()).map(|ast| {
+            parse(src, "t", cfg.syntax(), WhitespaceConfig::default()).map(|ast| {
                 let mut d = Dump::default();
                 d.stmt(&ast);
                 d
@@ -1054,16 +1213,26 @@ fn run_one(full_src: &str) -> String {
     };
     fields.push("\"parse\":\"ok\"".into());
     fields.push(format!("\"ast\":{}", json_str(&dump.out)));
-    fields.push(format!("\"recursive\":{}", dump.recursive));
     fields.push(format!("\"unsupported\":{}", dump.unsupported));
-    fields.push(format!("\"selfref\":{}", json_list(dump.selfref.iter().cloned())));
     let kinds: Vec<String> = dump.kinds.iter().map(|(k, v)| format!("{}:{}", json_str(k), v)).collect();
     fields.push(format!("\"kinds\":{{{}}}", kinds.join(",")));
 
     // 2. real analysis + renders with recording contexts
-    let env = mk_env();
+    let mut env = mk_env(cfg);
     let globals: BTreeSet<String> = env.globals().map(|(k, _)| k.to_string()).collect();
     fields.push(format!("\"globals\":{}", json_list(globals.iter().cloned())));
+    // what the other templates of the environment may ask for (their own reports)
+    let mut foreign: BTreeSet<String> = BTreeSet::new();
+    for (name, _) in HELPERS.iter() {
+        foreign.extend(env.get_template(name).unwrap().undeclared_variables(false));
+    }
+    fields.push(format!("\"foreign\":{}", json_list(foreign.iter().cloned())));
+    if cfg.named && !is_expr {
+        if let Err(e) = env.add_template_owned("t".to_string(), src.to_string()) {
+            fields.push(format!("\"compile\":{}", json_str(&format!("err:{:?}", e.kind()))));
+            return format!("{{{}}}", fields.join(","));
+        }
+    }
     enum Subject<'a> {
         T(minijinja::Template<'a, 'a>),
         E(minijinja::Expression<'a, 'a>),
@@ -1071,6 +1240,8 @@ fn run_one(full_src: &str) -> String {
     let compiled = guarded(|| {
         if is_expr {
             env.compile_expression(src).map(Subject::E)
+        } else if cfg.named {
+            env.get_template("t").map(Subject::T)
         } else {
             env.template_from_str(src).map(Subject::T)
         }
@@ -1109,8 +1280,51 @@ fn run_one(full_src: &str) -> String {
     fields.push(format!("\"und\":{}", json_list(und.iter().cloned())));
     fields.push(format!("\"nested\":{}", json_list(nested.iter().cloned())));
 
+    // 3. what the code generator made of the macros: BuildMacro flags and Enclose names
+    if let Subject::T(t) = &tmpl {
+        use minijinja::machinery::{get_compiled_template, Instruction};
+        let compiled = get_compiled_template(t);
+        let mut macros: Vec<String> = Vec::new();
+        let mut scan = |instrs: &minijinja::machinery::Instructions<'_>| {
+            let mut enclosed: BTreeSet<String> = BTreeSet::new();
+            let mut idx = 0u32;
+            while let Some(instr) = instrs.get(idx) {
+                match instr {
+                    Instruction::Enclose(name) => {
+                        enclosed.insert(name.to_string());
+                    }
+                    Instruction::BuildMacro(name, _, flags) => {
+                        let cl: Vec<String> = std::mem::take(&mut enclosed).into_iter().collect();
+                        macros.push(format!("{}:{}:{}", name, if flags & 2 != 0 { 1 } else { 0 }, cl.join(",")));
+                    }
+                    _ => {}
+                }
+                idx += 1;
+            }
+        };
+        scan(&compiled.instructions);
+        for (_, instrs) in compiled.blocks.iter() {
+            scan(instrs);
+        }
+        macros.sort();
+        fields.push(format!("\"macros\":{}", json_list(macros)));
+    }
+
+    // 4. renders
     let mut reads = Vec::new();
+    let mut paths = Vec::new();
     let mut outcomes = Vec::new();
+    let describe = |res: Result<Result<(), Error>, String>| match res {
+        Ok(Ok(_)) => "ok".to_string(),
+        Ok(Err(e)) => {
+            if std::env::var("C18_DETAIL").is_ok() {
+                format!("err:{:?}:{}", e.kind(), e)
+            } else {
+                format!("err:{:?}", e.kind())
+            }
+        }
+        Err(p) => format!("panic:{}", p.chars().take(80).collect::<String>()),
+    };
     for which in 0..N_CONTEXTS {
         let rec = mk_context(which, seed);
         let ctx = Value::from_dyn_object(rec.clone());
@@ -1118,21 +1332,41 @@ fn run_one(full_src: &str) -> String {
             Subject::T(t) => t.render(ctx).map(|_| ()),
             Subject::E(e) => e.eval(ctx).map(|_| ()),
         });
-        outcomes.push(match res {
-            Ok(Ok(_)) => "ok".to_string(),
-            Ok(Err(e)) => {
-                if std::env::var("C18_DETAIL").is_ok() {
-                    format!("err:{:?}:{}", e.kind(), e)
-                } else {
-                    format!("err:{:?}", e.kind())
-                }
-            }
-            Err(p) => format!("panic:{}", p.chars().take(80).collect::<String>()),
-        });
+        outcomes.push(describe(res));
         let keys: BTreeSet<String> = rec.log.lock().unwrap().iter().cloned().collect();
         reads.push(json_list(keys.into_iter()));
+        let ps: BTreeSet<String> = rec.paths.lock().unwrap().iter().cloned().collect();
+        paths.push(json_list(ps.into_iter()));
+    }
+    // other entry points: render_captured, then every block through render_block and every
+    // top-level macro through call_macro (one more recording context)
+    if let Subject::T(t) = &tmpl {
+        let rec = mk_context(1, seed ^ 0x77);
+        let ctx = Value::from_dyn_object(rec.clone());
+        let block_names: Vec<String> =
+            minijinja::machinery::get_compiled_template(t).blocks.keys().map(|k| k.to_string()).collect();
+        let res = guarded(|| {
+            // render_captured keeps the State; blocks and macros are then driven from outside
+            let mut captured = t.render_captured(ctx)?;
+            captured.with_state_mut(|state| {
+                for b in &block_names {
+                    let _ = state.render_block(b);
+                }
+                let exports: Vec<String> = state.exports().into_iter().map(|x| x.to_string()).collect();
+                for name in exports {
+                    let _ = state.call_macro(&name, &[]);
+                }
+            });
+            Ok(())
+        });
+        outcomes.push(format!("entry:{}", describe(res)));
+        let keys: BTreeSet<String> = rec.log.lock().unwrap().iter().cloned().collect();
+        reads.push(json_list(keys.into_iter()));
+        let ps: BTreeSet<String> = rec.paths.lock().unwrap().iter().cloned().collect();
+        paths.push(json_list(ps.into_iter()));
     }
     fields.push(format!("\"reads\":[{}]", reads.join(",")));
+    fields.push(format!("\"paths\":[{}]", paths.join(",")));
     fields.push(format!("\"outcome\":{}", json_list(outcomes)));
     format!("{{{}}}", fields.join(","))
 }
